@@ -58,6 +58,13 @@ struct Args {
         return it == kv.end() ? d : atol(it->second.c_str());
     }
     bool thorough() const { return tier == "thorough"; }
+    // case selection: --case i (single), --from a --to b (range), --skip "i,j,k"
+    bool selected(long c) const {
+        if (only_case >= 0) return c == only_case;
+        if (c < getl("from", 0) || c > getl("to", 1L << 60)) return false;
+        std::string sk = "," + get("skip") + ",";
+        return sk.find("," + std::to_string(c) + ",") == std::string::npos;
+    }
 };
 
 // ------------------------------------------------------------------ output
@@ -70,6 +77,9 @@ inline void emit(const char* fmt, ...) {
     va_end(ap);
     fputc('\n', stdout);
 }
+// case brackets; flushing keeps the transcript complete up to a crash
+inline void beginCase(long c) { fprintf(stdout, "case %ld\n", c); fflush(stdout); }
+inline void endCase() { fputs("endcase\n", stdout); fflush(stdout); }
 inline void emits(const std::string& s) { fputs(s.c_str(), stdout); fputc('\n', stdout); }
 
 // distribution counters, printed at the end as `stat <key> <count>` lines
